@@ -1,0 +1,382 @@
+//! Verification seams. Compiled only with `--cfg rws_verif`; never part of a normal build.
+//!
+//! This module contains no simulation logic. It mirrors the paths of the few `std` items the
+//! server uses for threads, channels, locks and TCP, and forwards them to a scheduler-owned
+//! implementation (the `shuttle` crate, supplied by the verification harness's manifest) and to a
+//! `Backend` object the harness installs before it starts a simulated node.
+
+#![allow(dead_code)]
+
+use std::io;
+use std::net::SocketAddr;
+use std::sync::OnceLock;
+
+/// Everything the harness decides: transport behaviour, logical time, extra scheduling points.
+pub trait Backend: Sync + Send {
+    /// Called before every blocking synchronisation operation of the code under test.
+    fn sync_point(&self);
+    /// Explicit scheduling point at a stage boundary of request handling.
+    fn yield_point(&self, tag: &'static str);
+    /// Logical clock; `None` = use the system clock.
+    fn clock_now(&self) -> Option<u128>;
+    /// A thread of the code under test starts / ends (`panicked` = it ended by an escaped panic).
+    fn thread_enter(&self, name: Option<&str>);
+    fn thread_exit(&self, name: Option<&str>, panicked: bool);
+
+    fn accept(&self, listener: usize) -> Option<io::Result<usize>>;
+    fn listener_addr(&self, listener: usize) -> io::Result<SocketAddr>;
+    fn local_addr(&self, stream: usize) -> io::Result<SocketAddr>;
+    fn peer_addr(&self, stream: usize) -> io::Result<SocketAddr>;
+    fn read(&self, stream: usize, buf: &mut [u8]) -> io::Result<usize>;
+    fn write(&self, stream: usize, buf: &[u8]) -> io::Result<usize>;
+    fn flush(&self, stream: usize) -> io::Result<()>;
+    fn shutdown(&self, stream: usize, how: std::net::Shutdown) -> io::Result<()>;
+    fn dup(&self, stream: usize) -> io::Result<usize>;
+    fn close(&self, stream: usize);
+}
+
+static BACKEND: OnceLock<&'static dyn Backend> = OnceLock::new();
+
+pub fn install(backend: &'static dyn Backend) {
+    let _ = BACKEND.set(backend);
+}
+
+pub fn backend() -> Option<&'static dyn Backend> {
+    BACKEND.get().copied()
+}
+
+fn must_backend() -> &'static dyn Backend {
+    backend().expect("rws_verif: no backend installed")
+}
+
+#[inline]
+pub fn sync_point() {
+    if let Some(b) = backend() {
+        b.sync_point();
+    }
+}
+
+#[inline]
+pub fn yield_point(tag: &'static str) {
+    if let Some(b) = backend() {
+        b.yield_point(tag);
+    }
+}
+
+pub fn clock_now() -> Option<u128> {
+    backend().and_then(|b| b.clock_now())
+}
+
+/// Mirror of `std::sync` for the items the pool uses; everything else is re-exported.
+pub mod sync {
+    pub use shuttle::sync::atomic;
+    pub use shuttle::sync::{
+        Arc, Barrier, BarrierWaitResult, Condvar, LockResult, MutexGuard, Once, OnceState, PoisonError, RwLock,
+        RwLockReadGuard, RwLockWriteGuard, TryLockError, TryLockResult, WaitTimeoutResult, Weak,
+    };
+
+    #[derive(Debug, Default)]
+    pub struct Mutex<T: ?Sized>(shuttle::sync::Mutex<T>);
+
+    impl<T> Mutex<T> {
+        pub fn new(value: T) -> Self {
+            Mutex(shuttle::sync::Mutex::new(value))
+        }
+        pub fn into_inner(self) -> LockResult<T> {
+            self.0.into_inner()
+        }
+    }
+
+    impl<T: ?Sized> Mutex<T> {
+        pub fn lock(&self) -> LockResult<MutexGuard<'_, T>> {
+            super::sync_point();
+            self.0.lock()
+        }
+        pub fn try_lock(&self) -> TryLockResult<MutexGuard<'_, T>> {
+            super::sync_point();
+            self.0.try_lock()
+        }
+        pub fn get_mut(&mut self) -> LockResult<&mut T> {
+            self.0.get_mut()
+        }
+    }
+
+    impl<T> From<T> for Mutex<T> {
+        fn from(value: T) -> Self {
+            Mutex::new(value)
+        }
+    }
+
+    pub mod mpsc {
+        pub use shuttle::sync::mpsc::{
+            IntoIter, Iter, RecvError, RecvTimeoutError, SendError, SyncSender, TryIter, TryRecvError, TrySendError,
+        };
+        use std::time::Duration;
+
+        #[derive(Debug)]
+        pub struct Sender<T>(shuttle::sync::mpsc::Sender<T>);
+        #[derive(Debug)]
+        pub struct Receiver<T>(shuttle::sync::mpsc::Receiver<T>);
+
+        pub fn channel<T>() -> (Sender<T>, Receiver<T>) {
+            let (s, r) = shuttle::sync::mpsc::channel();
+            (Sender(s), Receiver(r))
+        }
+
+        pub fn sync_channel<T>(bound: usize) -> (SyncSender<T>, Receiver<T>) {
+            let (s, r) = shuttle::sync::mpsc::sync_channel(bound);
+            (s, Receiver(r))
+        }
+
+        impl<T> Sender<T> {
+            pub fn send(&self, t: T) -> Result<(), SendError<T>> {
+                crate::verif::sync_point();
+                self.0.send(t)
+            }
+        }
+
+        impl<T> Clone for Sender<T> {
+            fn clone(&self) -> Self {
+                Sender(self.0.clone())
+            }
+        }
+
+        impl<T> Receiver<T> {
+            pub fn recv(&self) -> Result<T, RecvError> {
+                crate::verif::sync_point();
+                self.0.recv()
+            }
+            pub fn try_recv(&self) -> Result<T, TryRecvError> {
+                crate::verif::sync_point();
+                self.0.try_recv()
+            }
+            pub fn recv_timeout(&self, timeout: Duration) -> Result<T, RecvTimeoutError> {
+                crate::verif::sync_point();
+                self.0.recv_timeout(timeout)
+            }
+            pub fn iter(&self) -> Iter<'_, T> {
+                self.0.iter()
+            }
+            pub fn try_iter(&self) -> TryIter<'_, T> {
+                self.0.try_iter()
+            }
+        }
+    }
+}
+
+/// Mirror of `std::thread`. Threads started through it report their start and end to the backend;
+/// a panic that escapes the thread's closure ends that thread only (as in std) and is what
+/// `JoinHandle::join` returns.
+pub mod thread {
+    pub use shuttle::thread::{current, panicking, park, park_timeout, sleep, yield_now, Result, Thread, ThreadId};
+    use std::io;
+    use std::panic::{catch_unwind, AssertUnwindSafe};
+
+    #[derive(Debug)]
+    pub struct JoinHandle<T>(shuttle::thread::JoinHandle<Result<T>>);
+
+    impl<T> JoinHandle<T> {
+        pub fn join(self) -> Result<T> {
+            crate::verif::sync_point();
+            match self.0.join() {
+                Ok(inner) => inner,
+                Err(e) => Err(e),
+            }
+        }
+        pub fn thread(&self) -> &Thread {
+            self.0.thread()
+        }
+    }
+
+    fn wrap<F, T>(name: Option<String>, f: F) -> impl FnOnce() -> Result<T> + Send + 'static
+    where
+        F: FnOnce() -> T + Send + 'static,
+        T: Send + 'static,
+    {
+        move || {
+            if let Some(b) = crate::verif::backend() {
+                b.thread_enter(name.as_deref());
+            }
+            let result = catch_unwind(AssertUnwindSafe(f));
+            if let Some(b) = crate::verif::backend() {
+                b.thread_exit(name.as_deref(), result.is_err());
+            }
+            result
+        }
+    }
+
+    pub fn spawn<F, T>(f: F) -> JoinHandle<T>
+    where
+        F: FnOnce() -> T + Send + 'static,
+        T: Send + 'static,
+    {
+        JoinHandle(shuttle::thread::spawn(wrap(None, f)))
+    }
+
+    #[derive(Debug, Default)]
+    pub struct Builder {
+        name: Option<String>,
+        stack_size: Option<usize>,
+    }
+
+    impl Builder {
+        pub fn new() -> Self {
+            Builder { name: None, stack_size: None }
+        }
+        pub fn name(mut self, name: String) -> Self {
+            self.name = Some(name);
+            self
+        }
+        pub fn stack_size(mut self, size: usize) -> Self {
+            self.stack_size = Some(size);
+            self
+        }
+        pub fn spawn<F, T>(self, f: F) -> io::Result<JoinHandle<T>>
+        where
+            F: FnOnce() -> T + Send + 'static,
+            T: Send + 'static,
+        {
+            let mut inner = shuttle::thread::Builder::new();
+            if let Some(n) = &self.name {
+                inner = inner.name(n.clone());
+            }
+            if let Some(s) = self.stack_size {
+                inner = inner.stack_size(s);
+            }
+            inner.spawn(wrap(self.name, f)).map(JoinHandle)
+        }
+    }
+}
+
+/// Mirror of the `std::net` items the server uses, backed by the installed `Backend`.
+pub mod net {
+    pub use std::net::{IpAddr, Ipv4Addr, Ipv6Addr, Shutdown, SocketAddr, ToSocketAddrs};
+    use std::io::{self, Read, Write};
+    use std::time::Duration;
+
+    #[derive(Debug)]
+    pub struct TcpListener {
+        id: usize,
+    }
+
+    #[derive(Debug)]
+    pub struct TcpStream {
+        id: usize,
+    }
+
+    #[derive(Debug)]
+    pub struct Incoming<'a> {
+        listener: &'a TcpListener,
+    }
+
+    impl TcpListener {
+        /// Listeners are created by the harness, not by binding an address.
+        pub fn from_backend(id: usize) -> TcpListener {
+            TcpListener { id }
+        }
+        pub fn bind<A: ToSocketAddrs>(_addr: A) -> io::Result<TcpListener> {
+            Err(io::Error::new(io::ErrorKind::Unsupported, "rws_verif: bind is not simulated"))
+        }
+        pub fn incoming(&self) -> Incoming<'_> {
+            Incoming { listener: self }
+        }
+        pub fn accept(&self) -> io::Result<(TcpStream, SocketAddr)> {
+            match super::must_backend().accept(self.id) {
+                Some(Ok(id)) => {
+                    let stream = TcpStream { id };
+                    let addr = stream.peer_addr()?;
+                    Ok((stream, addr))
+                }
+                Some(Err(e)) => Err(e),
+                None => Err(io::Error::new(io::ErrorKind::Other, "rws_verif: listener closed")),
+            }
+        }
+        pub fn local_addr(&self) -> io::Result<SocketAddr> {
+            super::must_backend().listener_addr(self.id)
+        }
+        pub fn set_nonblocking(&self, _nonblocking: bool) -> io::Result<()> {
+            Ok(())
+        }
+        pub fn set_ttl(&self, _ttl: u32) -> io::Result<()> {
+            Ok(())
+        }
+    }
+
+    impl<'a> Iterator for Incoming<'a> {
+        type Item = io::Result<TcpStream>;
+        fn next(&mut self) -> Option<io::Result<TcpStream>> {
+            super::must_backend().accept(self.listener.id).map(|r| r.map(|id| TcpStream { id }))
+        }
+    }
+
+    impl TcpStream {
+        pub fn local_addr(&self) -> io::Result<SocketAddr> {
+            super::must_backend().local_addr(self.id)
+        }
+        pub fn peer_addr(&self) -> io::Result<SocketAddr> {
+            super::must_backend().peer_addr(self.id)
+        }
+        pub fn shutdown(&self, how: Shutdown) -> io::Result<()> {
+            super::must_backend().shutdown(self.id, how)
+        }
+        pub fn try_clone(&self) -> io::Result<TcpStream> {
+            super::must_backend().dup(self.id).map(|id| TcpStream { id })
+        }
+        pub fn set_read_timeout(&self, _dur: Option<Duration>) -> io::Result<()> {
+            Ok(())
+        }
+        pub fn set_write_timeout(&self, _dur: Option<Duration>) -> io::Result<()> {
+            Ok(())
+        }
+        pub fn set_nodelay(&self, _nodelay: bool) -> io::Result<()> {
+            Ok(())
+        }
+        pub fn set_nonblocking(&self, _nonblocking: bool) -> io::Result<()> {
+            Ok(())
+        }
+        pub fn set_ttl(&self, _ttl: u32) -> io::Result<()> {
+            Ok(())
+        }
+        pub fn take_error(&self) -> io::Result<Option<io::Error>> {
+            Ok(None)
+        }
+    }
+
+    impl Read for TcpStream {
+        fn read(&mut self, buf: &mut [u8]) -> io::Result<usize> {
+            super::must_backend().read(self.id, buf)
+        }
+    }
+
+    impl Write for TcpStream {
+        fn write(&mut self, buf: &[u8]) -> io::Result<usize> {
+            super::must_backend().write(self.id, buf)
+        }
+        fn flush(&mut self) -> io::Result<()> {
+            super::must_backend().flush(self.id)
+        }
+    }
+
+    impl Read for &TcpStream {
+        fn read(&mut self, buf: &mut [u8]) -> io::Result<usize> {
+            super::must_backend().read(self.id, buf)
+        }
+    }
+
+    impl Write for &TcpStream {
+        fn write(&mut self, buf: &[u8]) -> io::Result<usize> {
+            super::must_backend().write(self.id, buf)
+        }
+        fn flush(&mut self) -> io::Result<()> {
+            super::must_backend().flush(self.id)
+        }
+    }
+
+    impl Drop for TcpStream {
+        fn drop(&mut self) {
+            if let Some(b) = super::backend() {
+                b.close(self.id);
+            }
+        }
+    }
+}
